@@ -116,7 +116,7 @@ def bounded(ctx):
     from clikit.io.output_stream import BufferedOutputStream
 
     refl = reflect_write_methods()
-    ctx.check("gate_table", "all reflected write methods x verbosity x flags None,0..7 x quiet x ANSI/plain x object kinds")
+    ctx.check("gate_table", "all reflected write methods x verbosity x flags None,0..7 x quiet x ANSI/plain x object kinds x the order in which verbosity and quiet were set")
     TEXT = "MARK"
 
     def make(kind, ansi):
@@ -155,13 +155,15 @@ def bounded(ctx):
                 for verbosity in (0, 1, 2, 4):
                     for quiet in (False, True):
                         for flags in ([None] + list(range(8))) if has_flags else [None]:
+                          for order in ("vq", "qv"):
                             obj, streams = make(kind, ansi)
-                            if kind in ("io", "section_io"):
+                            # (the state is reached by the setters in either order: verbosity then quiet, quiet then verbosity)
+                            if order == "vq":
                                 obj.set_verbosity(verbosity)
                                 obj.set_quiet(quiet)
                             else:
-                                obj.set_verbosity(verbosity)
                                 obj.set_quiet(quiet)
+                                obj.set_verbosity(verbosity)
                             # something to erase for the control-only paths
                             if isinstance(obj, SectionOutput):
                                 was_q = obj.is_quiet()
@@ -178,7 +180,7 @@ def bounded(ctx):
                                 args = [1]
                             if has_flags:
                                 kwargs["flags"] = flags
-                            key = [kind, ansi, m, verbosity, quiet, flags]
+                            key = [kind, ansi, m, verbosity, quiet, flags, order]
                             try:
                                 getattr(obj, m)(*args, **kwargs)
                             except Exception as e:  # a write path must not fail
